@@ -268,6 +268,11 @@ class NF(object):
                 c.keywords = [ast.keyword(arg=k.arg, value=v) for k, v in zip(e.keywords, vs[n_f + len(e.args):])]
                 return c
             out = []
+            if src(e.func).endswith("raise_from") and e.args:
+                # six.raise_from(exc, cause) never returns
+                for q, c in self.seq(p, parts, build):
+                    self.finish(q, "raise", ast.Tuple(elts=list(c.args), ctx=ast.Load()))
+                return []
             for q, c in self.seq(p, parts, build):
                 if is_pure_call(e):
                     out.append((q, c))
@@ -462,7 +467,7 @@ class NF(object):
                 raise Unsupported("effectful store target")
             (q, rv), = self.ev(p, target.value)
             (q, rs), = self.ev(p, target.slice)
-            p.effects.append(("store", "%s[%s]" % (src(rv), src(rs)), value))
+            p.effects.append(("store", "%s[%s]" % (src(rv) if isinstance(rv, (ast.Name, ast.Attribute, ast.Subscript, ast.Call)) else "(%s)" % src(rv), src(rs)), value))
             self.bump(p)
         else:
             raise Unsupported("target %s" % type(target).__name__)
